@@ -99,6 +99,24 @@ theorem results_key (w : WSpec) (b : List Item) : (results w b).map gkey = b.map
   · simp [gkey, Function.comp_def]
   · split <;> simp [gkey, Function.comp_def]
 
+theorem mem_results (w : WSpec) (b : List Item) (t : GMsg) (h : t ∈ results w b) :
+    ∃ t0 ∈ b, t.1 = t0.1 ∧ t.2.1 = t0.2.1 ∧
+      (t.2.2 = w.f t0.2.2 ∨ (w.bs ≠ 0 ∧ ∃ err, w.bfail (b.map (·.2.2)) = some err ∧ t.2.2 = err)) := by
+  unfold results at h
+  split at h
+  · simp only [List.mem_map] at h
+    obtain ⟨t0, h0, rfl⟩ := h
+    exact ⟨t0, h0, rfl, rfl, Or.inl rfl⟩
+  · rename_i hbs
+    split at h
+    · rename_i err herr
+      simp only [List.mem_map] at h
+      obtain ⟨t0, h0, rfl⟩ := h
+      exact ⟨t0, h0, rfl, rfl, Or.inr ⟨hbs, err, herr, rfl⟩⟩
+    · simp only [List.mem_map] at h
+      obtain ⟨t0, h0, rfl⟩ := h
+      exact ⟨t0, h0, rfl, rfl, Or.inl rfl⟩
+
 theorem kc_results (w : WSpec) (m : Msg) (b : List Item) : kc m (results w b) = kc m b := by
   simp [kc, results_key]
 
@@ -344,6 +362,91 @@ theorem outinv_step (w : WSpec) (s s' : State) (a : Act) (h : OutInv s) (hs : st
     · rename_i m rest hq
       simp at hs; subst hs; exact ⟨d ++ [m], by simp [← hd, hq]⟩
     · simp at hs
+
+/-- where a message on the way out comes from: the exception that entered (short-circuit), the
+    failure of `preprocess` on its own input, or a finished `call` (recorded in `blog`) -/
+def SrcInv (w : WSpec) (s : State) : Prop :=
+  ∀ t ∈ s.sentG ++ s.emitq,
+    (t.2.1.isExc = true ∧ t.2.2 = t.2.1) ∨
+    (t.2.1.isExc = false ∧ (w.pre t.2.1).isExc = true ∧ t.2.2 = w.pre t.2.1) ∨
+    ∃ e ∈ s.blog, t ∈ e.2
+
+theorem srcinv_step (w : WSpec) (s s' : State) (a : Act) (h : SrcInv w s) (hs : step w s a = some s') :
+    SrcInv w s' := by
+  cases a with
+  | arrive m => simp [step] at hs; subst hs; exact h
+  | take =>
+    simp only [step] at hs
+    split at hs
+    · rename_i u x rest hq
+      split at hs
+      · rename_i hx
+        simp at hs; subst hs
+        intro t ht
+        simp only [List.mem_append, List.mem_singleton] at ht
+        rcases ht with ht | ht | ht
+        · exact h t (List.mem_append_left _ ht)
+        · exact h t (List.mem_append_right _ ht)
+        · subst ht; exact Or.inl ⟨hx, rfl⟩
+      · rename_i hx
+        split at hs
+        · rename_i hp
+          simp at hs; subst hs
+          intro t ht
+          simp only [List.mem_append, List.mem_singleton] at ht
+          rcases ht with ht | ht | ht
+          · exact h t (List.mem_append_left _ ht)
+          · exact h t (List.mem_append_right _ ht)
+          · subst ht; exact Or.inr (Or.inl ⟨by simpa using hx, hp, rfl⟩)
+        · simp at hs; subst hs; exact h
+    · simp at hs
+  | start mask =>
+    simp only [step] at hs
+    split at hs
+    · simp at hs; subst hs; exact h
+    · simp at hs
+  | finish k =>
+    simp only [step] at hs
+    split at hs
+    · rename_i b hbk
+      simp at hs; subst hs
+      intro t ht
+      simp only [List.mem_append] at ht
+      have hmono : ∀ t, (∃ e ∈ s.blog, t ∈ e.2) → ∃ e ∈ s.blog ++ [(b, results w b)], t ∈ e.2 :=
+        fun t ⟨e, he, hte⟩ => ⟨e, List.mem_append_left _ he, hte⟩
+      rcases ht with ht | ht | ht
+      · rcases h t (List.mem_append_left _ ht) with h1 | h1 | h1
+        · exact Or.inl h1
+        · exact Or.inr (Or.inl h1)
+        · exact Or.inr (Or.inr (hmono t h1))
+      · rcases h t (List.mem_append_right _ ht) with h1 | h1 | h1
+        · exact Or.inl h1
+        · exact Or.inr (Or.inl h1)
+        · exact Or.inr (Or.inr (hmono t h1))
+      · exact Or.inr (Or.inr ⟨(b, results w b), by simp, ht⟩)
+    · simp at hs
+  | emit k =>
+    simp only [step] at hs
+    split at hs
+    · rename_i t htk
+      simp at hs; subst hs
+      intro t' ht'
+      simp only [List.mem_append, List.mem_singleton] at ht'
+      rcases ht' with (ht' | ht') | ht'
+      · exact h t' (List.mem_append_left _ ht')
+      · subst ht'; exact h t' (List.mem_append_right _ (List.mem_of_getElem? htk))
+      · exact h t' (List.mem_append_right _ (List.mem_of_mem_eraseIdx ht'))
+    · simp at hs
+  | deliver =>
+    simp only [step] at hs
+    split at hs
+    · simp at hs; subst hs; exact h
+    · simp at hs
+
+theorem srcinv_reach (w : WSpec) (as : List Act) (s : State)
+    (hr : Core.run (step w) init as = some s) : SrcInv w s :=
+  Core.invariant_run (Inv := SrcInv w) (fun s a s' h hs => srcinv_step w s s' a h hs) as init s
+    (by intro t ht; simp [init] at ht) hr
 
 theorem inv_reach (w : WSpec) (hb : BerrsOk w) (as : List Act) (s : State)
     (hr : Core.run (step w) init as = some s) : Inv w s ∧ OutInv s :=
